@@ -32,7 +32,7 @@ ASSUMPTIONS = [
 PROBES = ["ops", "plain_ops", "show_ops", "save_ops", "show_and_save_ops", "bulk_save_ops", "bulk_save_all_invalid", "bulk_save_empty",
           "outcome_unchanged", "outcome_fixed", "outcome_failed", "preview_hsl", "preview_alpha", "preview_tuple", "preview_named",
           "plain_after_preview", "report_files_written", "tty_runs", "no_color_runs", "decoy_runs", "subprocess_phase",
-          "slot_ops", "invalid_pair_with_show", "chdir_ops", "report_after_chdir", "force_color_env_runs", "big_bulk_ops", "tmpdir_on_other_filesystem_runs", "report_blocked_ops", "save_with_report_blocked", "heavy_distinct_fix_ops", "odd_directory_names", "minimal_stdout_runs", "import_time_stdout_closed_runs", "iterator_container_ops"]
+          "slot_ops", "invalid_pair_with_show", "chdir_ops", "report_after_chdir", "force_color_env_runs", "big_bulk_ops", "tmpdir_on_other_filesystem_runs", "report_blocked_ops", "save_with_report_blocked", "heavy_distinct_fix_ops", "odd_directory_names", "minimal_stdout_runs", "import_time_stdout_closed_runs", "iterator_container_ops", "non_utf8_locale_phase"]
 
 QUICK = "cm_colors_quick_report.html"
 BULK = "cm_colors_bulk_report.html"
@@ -103,12 +103,12 @@ def generate(rseed, tier, idx):
                 op["plain_first"] = g.random() < 0.5  # same-process plain call issued before (True) or after (False)
             ops.append(op)
         elif m < 0.82:
-            kind = g.choice(("normal", "normal", "normal", "empty", "all-invalid", "big")) if g.random() > 0.03 else "big-fix"
+            kind = g.choice(("normal", "normal", "normal", "empty", "all-invalid", "big")) if g.random() > 0.02 else "big-fix"
             pairs = []
             if kind == "big-fix":
                 # VOLUME: several hundred distinct pairs that all need fixing (strict mode keeps it cheap)
                 mode, vr = g.choice((0, 1)), False
-                for j in range(g.choice((400, 700))):
+                for j in range(g.choice((300, 550))):
                     bg = gen.rand_rgb(g)
                     trgb, _ = gen.pick_text(g, bg, 4.5, g.choice(("fix", "mid")))
                     pairs.append([enc("#%02x%02x%02x" % trgb), enc("#%02x%02x%02x" % bg)])
@@ -129,7 +129,7 @@ def generate(rseed, tier, idx):
                     pairs.append([enc(g.choice(gen.POISON_STR)), enc(g.choice(gen.POISON_STR + ["#fff"]))])
                     pairs[-1][0] = enc(g.choice(gen.POISON_STR))
             op = {"op": "bulk", "pairs": pairs, "mode": mode, "vr": vr, "bkind": kind, "container": g.choice(("list", "list", "tuple", "iter", "gen"))}
-            if g.random() < 0.55:
+            if g.random() < 0.55 and kind != "big-fix":
                 op["save"] = True
                 op["plain_first"] = g.random() < 0.5
             ops.append(op)
@@ -147,7 +147,7 @@ def generate(rseed, tier, idx):
             if op.get("show") or op.get("save"):
                 op["plain_first"] = g.random() < 0.5
             ops.append(op)
-    return {"prop": ID, "ops": ops, "env": env, "subproc": idx % 8 == 5}
+    return {"prop": ID, "ops": ops, "env": env, "subproc": idx % 8 == 5, "subproc_locale": "C" if idx % 16 == 13 else None}
 
 
 # ---------------------------------------------------------------------------
@@ -388,6 +388,46 @@ def execute(trace):
                         bump("report_after_chdir")
                 else:
                     V("report-missing", i, op, expected=must)
+        # ---- real-interpreter phase under a NON-UTF-8 locale: save_report operations (no in-process seam can change
+        #      the interpreter's locale encoding); results must equal the pristine plain results, the documented
+        #      report must appear, nothing else
+        if trace.get("subproc_locale") == "C":
+            bump("non_utf8_locale_phase")
+            sops = []
+            for o, orc in zip(trace["ops"], oracles):
+                so = _strip(o)
+                if so["op"] in ("make", "bulk") and so.get("save") and not so.get("show") and so.get("container", "list") in ("list", "tuple"):
+                    sops.append((so, orc))
+            if sops:
+                lroot = base.new_sandbox("c17loc")
+                try:
+                    for d in ("cwd", "home", "tmp"):
+                        os.makedirs(os.path.join(lroot, d))
+                    code = ("import sys, json\nfrom verif_sim import apiops\nops = json.loads(sys.argv[1])\nctx = apiops.Ctx()\nout = []\n"
+                            "for op in ops:\n    r = apiops.run_op(op, ctx)\n    out.append({k: r.get(k) for k in ('ret', 'exc') if k in r})\n"
+                            "sys.stdout.write('\\n@@RESULT@@' + json.dumps(out))\n")
+                    envp = dict(os.environ, HOME=os.path.join(lroot, "home"), TMPDIR=os.path.join(lroot, "tmp"), COLUMNS="80", LINES="24",
+                                LC_ALL="C", LANG="C", PYTHONUTF8="0", PYTHONCOERCECLOCALE="0", PYTHONIOENCODING="utf-8")
+                    pr = subprocess.run([sys.executable, "-c", code, json.dumps([so for so, _ in sops])], cwd=os.path.join(lroot, "cwd"), env=envp,
+                                        capture_output=True, timeout=300)
+                    txt = pr.stdout.decode("utf-8", "replace")
+                    if pr.returncode != 0 or "@@RESULT@@" not in txt:
+                        raise base.HarnessError("non-UTF-8-locale phase failed: " + pr.stderr.decode("utf-8", "replace")[-600:])
+                    got = json.loads(txt.rsplit("@@RESULT@@", 1)[1])
+                    after_l = seams.snapshot(lroot)
+                    events.append(("locale-phase", got, sorted(k for k in after_l if k.startswith("cwd/"))))
+                    for (so, orc), g_ in zip(sops, got):
+                        if "exc" in g_:
+                            V("preview-raised", -2, so, exc=g_["exc"], locale="LC_ALL=C PYTHONUTF8=0")
+                        elif "ret" in orc["plain"] and g_.get("ret") != orc["plain"]["ret"]:
+                            V("result-differs", -2, so, with_preview=g_.get("ret"), pristine_plain=orc["plain"]["ret"], locale="LC_ALL=C PYTHONUTF8=0")
+                    stray = sorted(k for k in after_l if k not in ("cwd", "home", "tmp", "cwd/" + QUICK, "cwd/" + BULK))
+                    empty = [k for k in ("cwd/" + QUICK, "cwd/" + BULK) if k in after_l and after_l[k][0] == "f" and len(after_l[k][1]) == 0]
+                    if stray or empty:
+                        V("unexpected-file", -2, {"op": "locale-phase"}, paths=stray, empty_reports=empty, locale="LC_ALL=C PYTHONUTF8=0")
+                finally:
+                    base.rm_tree(lroot)
+
         # ---- real-subprocess phase: plain operations only, real fds on pipes
         if trace.get("subproc"):
             bump("subprocess_phase")
@@ -434,6 +474,10 @@ def shrink(trace):
     if trace.get("subproc"):
         t = copy.deepcopy(trace)
         t["subproc"] = False
+        yield t
+    if trace.get("subproc_locale"):
+        t = copy.deepcopy(trace)
+        t["subproc_locale"] = None
         yield t
     used_slots = {o["slot"] for o in ops if o["op"] in ("make_on", "readable_on")}
     for i in range(len(ops)):
